@@ -87,6 +87,36 @@ Proof.
 Qed.
 Print Assumptions T19_accepted_inline_data_is_redacted.
 
+(* From the ARGUMENT STRING (config.go ParseUserinfo, host.go ParseHostPortUser are in the model): for EVERY
+   password -- colons, at-signs, percent signs, anything -- `user:password` prints as user + placeholder and
+   `user:password@host:port` as user + placeholder + host and port; so two arguments that differ only in the
+   password print the same. *)
+Theorem T19_parse_then_redact : forall u p1 p2 h port,
+  u <> [] -> ~ In 58 u -> h <> [] -> port <> [] -> ~ In 64 h -> ~ In 64 port -> ~ In 58 port ->
+  redact_userinfo (parse_userinfo (u ++ 58 :: p1)) = u ++ b ":xxxxx" /\
+  redact_hpu (parse_hpu ((u ++ 58 :: p1) ++ 64 :: (h ++ 58 :: port))) =
+    u ++ b ":xxxxx" ++ [64] ++ h ++ [58] ++ show_port (norm_port port) /\
+  redact_hpu (parse_hpu ((u ++ 58 :: p1) ++ 64 :: (h ++ 58 :: port))) =
+  redact_hpu (parse_hpu ((u ++ 58 :: p2) ++ 64 :: (h ++ 58 :: port))).
+Proof.
+  exact (fun u p1 p2 h port Hu Hc Hh Hp Hah Hap Hcp =>
+    eq_ind _ (fun sfx =>
+      redact_userinfo (parse_userinfo (u ++ 58 :: p1)) = u ++ sfx /\
+      redact_hpu (parse_hpu ((u ++ 58 :: p1) ++ 64 :: (h ++ 58 :: port))) = u ++ sfx ++ [64] ++ h ++ [58] ++ show_port (norm_port port) /\
+      redact_hpu (parse_hpu ((u ++ 58 :: p1) ++ 64 :: (h ++ 58 :: port))) = redact_hpu (parse_hpu ((u ++ 58 :: p2) ++ 64 :: (h ++ 58 :: port))))
+      (conj (parse_redact_userinfo ob_redact_userinfo_hides_password u p1 Hu Hc)
+         (conj (parse_redact_hpu ob_redact_hpu_hides_password u p1 h port Hu Hc Hh Hp Hah Hap Hcp)
+               (parse_redact_hpu_ni ob_redact_hpu_hides_password u p1 p2 h port Hu Hc Hh Hp Hah Hap Hcp)))
+      _ (proj1 ob_placeholders)).
+Qed.
+Print Assumptions T19_parse_then_redact.
+
+Example T19_parse_example :
+  parse_hpu (b "svc@corp:p@ss:w0rd@proxy.example.com:*") = Some ((b "svc@corp", Some (b "p@ss:w0rd")), b "proxy.example.com", b "0") /\
+  redact_hpu (parse_hpu (b "svc@corp:p@ss:w0rd@proxy.example.com:*")) = b "svc@corp:xxxxx@proxy.example.com:*" /\
+  parse_userinfo (b ":nouser") = None /\ parse_hpu (b "user:pass") = None.
+Proof. exact (conj eq_refl (conj eq_refl (conj eq_refl eq_refl))). Qed.
+
 (* A flag value rendered without its redact function depends on the password. *)
 Theorem T19_unredacted_refuted :
   exists p1 p2, render_scalar R_NONE (VUserinfo (Some ([117], Some p1))) <> render_scalar R_NONE (VUserinfo (Some ([117], Some p2))).
